@@ -127,6 +127,9 @@ func genC18(c *Chooser) *c18Graph {
 		// ids that are different texts (also after lower-casing) although Unicode case folding relates some of them
 		unicodeNames = true
 		names = []string{"s", "\u017f", "x", "y", "\u03c3", "\u03c2", "\u00b5", "\u03bc"}
+	} else if c.Weighted("world.uppernonascii", 1, 20) {
+		// ids with upper-case letters outside ASCII (and their upper-cased spellings in needs)
+		names = []string{"\u00dcberpr\u00fcfung", "\u00c4rger", "\u00c9clair", "\u00d1u", "\u0416uk", "\u0394elta", "\u00d8re", "\u00c5ngstr\u00f6m"}
 	} else if c.Weighted("world.oddnames", 1, 10) {
 		names = make([]string, len(c18Names))
 		for i, n := range c18Names {
@@ -191,6 +194,10 @@ func genC18(c *Chooser) *c18Graph {
 		}
 		if allowDangling && c.Weighted("world.dangling", 1, 4) {
 			dn := "zz" + strconv.Itoa(c.Int("world.dname", 2))
+			if c.Weighted("world.odddangling", 1, 8) {
+				// a missing job whose name no job could have (or could): it is missing all the same
+				dn = []string{"gr\u00f6\u00dfe", "2nd-stage", "build.linux", "a b", "_-_", "zz$0"}[c.Int("world.odddname", 6)]
+			}
 			job.Needs = append(job.Needs, c18Case(c, dn))
 			if c.Weighted("world.dupdangling", 1, 4) {
 				// the missing job is named twice (possibly in another letter case), anywhere in the list
@@ -271,6 +278,13 @@ func (g *c18Graph) yaml(c *Chooser) string {
 			// workflow-call rule remembers the bad spec in the project's cache (shared by all files)
 			b.WriteString("    uses: ./.github/workflows/lib.yml@v1\n")
 			line++
+			if c.Weighted("world.mixedcalljob", 1, 3) {
+				// a call job that still carries a section of the normal job it was before (a syntax
+				// error of its own): its needs are needs all the same
+				extra := []string{"    runs-on: ubuntu-latest\n", "    timeout-minutes: 5\n", "    steps:\n      - run: echo\n"}[c.Int("world.mixedkind", 3)]
+				b.WriteString(extra)
+				line += strings.Count(extra, "\n")
+			}
 			continue
 		}
 		b.WriteString("    runs-on: ubuntu-latest\n    steps:\n      - run: echo\n")
